@@ -147,7 +147,9 @@ impl Decoder {
                         // Variable-size: use length table
                         if let Some(length_table) = length_table {
                             let len = length_table[row] as usize;
-                            if len == 0 {
+                            // Nulls are flagged in the null bitmap (checked above); a
+                            // zero-length string that is not flagged is an empty string.
+                            if len == 0 && logical_type != "String" {
                                 columns[col_idx].push(ScalarValue::Null);
                                 continue;
                             }
